@@ -330,7 +330,11 @@ class Call(Selector):
                 elif x.name.startswith("#loop_") or x.name.startswith(
                     "#endloop_"
                 ):
-                    pass
+                    if x.name not in info:
+                        problems.append(
+                            f"{x.name} is not valid: `{func}` has no for loop"
+                            f" over `{x.name.split('_', 1)[1]}`"
+                        )
 
                 elif x.name.startswith("#"):
                     if x.name not in _valid_hashvars:
